@@ -5,6 +5,7 @@ CONSTANTS
   Builder = "old"
   ExcludeTouch = TRUE
   U = 1
+  EmitOn = FALSE
   TruncEnd = FALSE
   ExcludeZeroPairs = TRUE
 INVARIANT TotalOrder
